@@ -63,8 +63,16 @@ func (rm *ResponseManager) processRequests(p peer.ID, requests []gsmsg.GraphSync
 	for _, request := range requests {
 		switch request.Type() {
 		case graphsync.RequestTypeCancel:
+			if !rm.isResponseForPeer(request.ID(), p) {
+				log.Warnf("received cancel for request ID %s not in progress for peer %s", request.ID().String(), p)
+				continue
+			}
 			_ = rm.abortRequest(ctx, request.ID(), ipldutil.ContextCancelError{})
 		case graphsync.RequestTypeUpdate:
+			if !rm.isResponseForPeer(request.ID(), p) {
+				log.Warnf("received update for request ID %s not in progress for peer %s", request.ID().String(), p)
+				continue
+			}
 			rm.processUpdate(ctx, request.ID(), request)
 		case graphsync.RequestTypeNew:
 			rm.newRequest(ctx, p, request)
@@ -72,6 +80,13 @@ func (rm *ResponseManager) processRequests(p peer.ID, requests []gsmsg.GraphSync
 			log.Errorf("unrecognized request type: %s", request.Type())
 		}
 	}
+}
+
+// isResponseForPeer returns true if there is an in progress response with the
+// given request ID that is being served to the given peer
+func (rm *ResponseManager) isResponseForPeer(requestID graphsync.RequestID, p peer.ID) bool {
+	response, ok := rm.inProgressResponses[requestID]
+	return ok && response.peer == p
 }
 
 // processUpdate handles a graphsync update message
@@ -181,6 +196,12 @@ func (rm *ResponseManager) abortRequest(ctx context.Context, requestID graphsync
 
 // new request sets up a new request
 func (rm *ResponseManager) newRequest(ctx context.Context, p peer.ID, request gsmsg.GraphSyncRequest) {
+
+	// never let one peer replace a response that is being served to another
+	if existing, ok := rm.inProgressResponses[request.ID()]; ok && existing.peer != p {
+		log.Warnf("ignoring request from peer %s: request ID %s is in use by peer %s", p, request.ID().String(), existing.peer)
+		return
+	}
 
 	// protect the connection
 	rm.connManager.Protect(p, request.ID().Tag())
